@@ -363,6 +363,11 @@ def life_facts(an):
         r = strip(n["inner"][1])
         return r.get("kind") == "CXXMemberCallExpr" and strip(r["inner"][0]).get("name") == "release" and "photospline::ndsparse" in qt(r)
     F["gridevalReleasesResult"] = bool(find_all(ge.body, releases))
+    def clears(n):   # `*result = NULL;`
+        if not (n.get("kind") == "BinaryOperator" and n.get("opcode") == "="): return False
+        l = strip(n["inner"][0])
+        return l.get("kind") == "UnaryOperator" and l.get("opcode") == "*" and ptr_atom(l["inner"][0]) == "result" and is_null_literal(n["inner"][1])
+    F["gridevalClearsResult"] = bool(ge.stmts) and clears(ge.stmts[0])
     nd = need("ndsparse_destroy")
     dl = find_all(nd.body, lambda n: n.get("kind") == "CXXDeleteExpr")
     if len(dl) != 1: die("ndsparse_destroy: expected exactly one delete")
